@@ -7,7 +7,7 @@ the executed text and the file are the rewrites below, each the identity on conc
   T3  S.join(E)                      ->  __pyvc__.join(S, E)          L.extend(E) -> __pyvc__.extend(L, E)
   T4  len/int/str/list/bool/all/any/enumerate(...)  ->  __pyvc__.b_<name>(...)
       permutations(...)              ->  __pyvc__.b_permutations(...)
-      re.match/search/split          ->  __pyvc__.re.<name>        copy.deepcopy -> __pyvc__.deepcopy
+      re.match/search/split/fullmatch/compile -> __pyvc__.re.<name>   copy.deepcopy -> __pyvc__.deepcopy
 
 `rewrites` counts what was rewritten per module (reported in the evidence).
 """
@@ -129,7 +129,7 @@ class T(ast.NodeTransformer):
             self.counts["T4"] += 1
             return ast.Call(func=self._rt("b_permutations"), args=node.args, keywords=node.keywords)
         if isinstance(f, ast.Attribute) and isinstance(f.value, ast.Name):
-            if f.value.id == "re" and f.attr in ("match", "search", "split"):
+            if f.value.id == "re" and f.attr in ("match", "search", "split", "fullmatch", "compile"):
                 self.counts["T4"] += 1
                 return ast.Call(func=ast.Attribute(value=self._rt("re"), attr=f.attr, ctx=ast.Load()),
                                 args=node.args, keywords=node.keywords)
